@@ -170,14 +170,37 @@ Proof.
   vm_compute. intros H. discriminate H.
 Qed.
 
+(* values per column chunk in the last footer *)
+Definition footer_values (evs : list event) : list (list N) :=
+  match last_footer evs None with
+  | Some f => map (fun r => map cm_nvalues (rg_cols r)) (ft_rgs f)
+  | None => []
+  end.
+
+(** before 2943698: rows buffered after a dictionary fallback, in a file that was
+    abandoned, came back in the next file as soon as its column fell back again *)
+Theorem C17_pinned_plain_buffer_refuted :
+  exists cfg md h ops,
+    observe (run_gen encode_ids lreset_pinned_plain (step_gen encode_ids lreset_pinned_plain (run_gen encode_ids lreset_pinned_plain (init cfg md) h) Reset) ops)
+    <> observe (run encode_ids (init cfg md) ops)
+    /\ footer_values (observe (run_gen encode_ids lreset_pinned_plain (init cfg md) (h ++ Reset :: ops))) = [[6; 5]]
+    /\ footer_values (observe (run encode_ids (init cfg md) ops)) = [[5; 5]].
+Proof.
+  exists ex_cfg, [], [Write (iota 0 4); Write [7]; Abandon], [Write (iota 0 4); Write [8]; Close].
+  vm_compute. repeat split; try reflexivity. intros H. discriminate H.
+Qed.
+
 (** ... while the current reset passes on the same witnesses *)
 Example C17_current_reset_on_the_witnesses :
   observe (run encode_ids (reset encode_ids (run encode_ids (init ex_cfg [(1, 5)]) [SetKV 9 9; Write [1]; Close])) [Write [1]; Close])
   = observe (run encode_ids (init ex_cfg [(1, 5)]) [Write [1]; Close])
   /\ observe (run encode_ids (reset encode_ids (run encode_ids (init ex_cfg_enc []) [Write [1]; Close])) [Write [1]; Close])
-  = observe (run encode_ids (init ex_cfg_enc []) [Write [1]; Close]).
-Proof. vm_compute. split; reflexivity. Qed.
+  = observe (run encode_ids (init ex_cfg_enc []) [Write [1]; Close])
+  /\ observe (run encode_ids (reset encode_ids (run encode_ids (init ex_cfg []) [Write (iota 0 4); Write [7]; Abandon])) [Write (iota 0 4); Write [8]; Close])
+  = observe (run encode_ids (init ex_cfg []) [Write (iota 0 4); Write [8]; Close]).
+Proof. vm_compute. repeat split; reflexivity. Qed.
 
 Print Assumptions C17_pinned_reset_aliasing_refuted.
 Print Assumptions C17_pinned_encrypted_ordinal_refuted.
 Print Assumptions C17_pinned_kv_survives_reset_refuted.
+Print Assumptions C17_pinned_plain_buffer_refuted.
